@@ -24,5 +24,14 @@ CLAIMED = {
     note="memcpy/memmove modelled as byte loops; qsort (libc) only has its arguments checked; storage <= 9 bytes quick / 16 thorough; "
          "node pool 5 / 7.",
     technique="CBMC bounded symbolic execution of array_list.inl/.c and linked_list.inl, one-step induction from arbitrary valid states"),
+ "C06": dict(
+    text="Priority queue: one operation (push, push with handle incl. the first handle arriving on a non-empty queue, pop, top, "
+         "remove by live handle, remove by stale/unrelated handle, clear, capacity refusal) from an arbitrary heap-ordered queue of "
+         "0..5 (quick) / 0..7 (thorough) elements with symbolic 32-bit priorities and handles attached to an arbitrary subset; after "
+         "the call the solver shows heap order, contents equal to the reference multiset (every element intact), popped element is a "
+         "minimum, and the handle bijection (slot's handle is its element's handle, handle index == slot, departed elements marked "
+         "not-in-queue). Dynamic / static / no-handle-array configurations enumerated per job; 140-byte elements exercise the sliced swap.",
+    note="Comparator is a total pre-order on a 32-bit key; element in slot i labelled i WLOG; allocator never fails; sizes beyond the bound not claimed.",
+    technique="CBMC bounded symbolic execution of source/priority_queue.c, one-step induction over the heap + handle-bijection invariant"),
 }
 NOT_APPLICABLE = {p: PENDING for p in ["C%02d" % i for i in range(1, 21)]}
